@@ -90,6 +90,11 @@ func (in *Interp) isEmptyJSON(v Value) bool {
 		return in.decide([]*smt.Term{z, in.tb.Not(z)}, "if") == 0
 	case Str:
 		if !v.IsConc() {
+			for _, g := range v.Segs {
+				if g.Itoa != nil || g.B64 != nil || g.isLit() && g.Lit != "" {
+					return false
+				}
+			}
 			panic(inconclusive{"omitempty on a symbolic string"})
 		}
 		return v.S == ""
